@@ -47,6 +47,9 @@ def body(ctx, rep, rule, impl, which):
     from mirq import inline_calls, inline_async
     ib = inline_async(b, lambda d: d.startswith(prefix) and not d.endswith(ANCHOR_METHODS), depth=3)
     ib = inline_calls(ib, want)
+    from mirq import expand_adaptors
+    ib = expand_adaptors(ib)
+    ib = inline_calls(ib, want)
     if ib is not b:
         rep.notes.append("%s: private helper(s) of %s inlined for path analysis" % (rule, name))
     return ib
